@@ -182,7 +182,7 @@ class Ctx:
         if hits:
             self.broken.append({"kind": "proof", "name": "source-grep", "detail": "\n".join(hits[:10])})
         self.cov["trusted_base"] = sorted(axioms_used | set()) + ["Lean 4.33.0 kernel", "go/extract translator", "differential harness"]
-        self.cov["theorems"] = theorems
+        self.cov["theorems"] = list(dict.fromkeys(list(self.cov.get("theorems") or []) + list(theorems)))   # every audit of the run, in order
         log(f"audit {module}: {ok_thms}/{len(theorems)} theorems, axioms={sorted(axioms_used)} {dt:.1f}s")
         return ok_thms == len(theorems) and not hits
 
